@@ -51,3 +51,11 @@ reg('C11', 'exploration',
     'equal the file after the first finalisation and read back, by the real and by the reference reader, as the records '
     'written. Exhaustive up to the history bound; held on the executions produced.',
     'Trusts vmon/ref/blocking.py. Whether a repeated finalisation is ignored or refused is not judged; only the file is.')
+
+reg('C15', 'exploration',
+    'runtime monitor: real Luhn functions driven over all short digit strings and all mutations of valid numbers, in-process and in -O / -OO child interpreters, against a reference Luhn',
+    'All digit strings of length 0..5 (quick) / 0..7 (thorough) are enumerated in each of three interpreter modes (normal, '
+    '-O, -OO; the mode is confirmed from sys.flags.optimize inside the child): computed digit equals the reference digit, '
+    'validate(add(s)) accepts, and every single-digit substitution and adjacent transposition (other than 0/9) of every valid '
+    'number up to payload length 4 / 5, and of 2 000 / 50 000 seeded long numbers with separators, is rejected.',
+    'Trusts vmon/ref/cards.py Luhn. accepts = returns (not False); rejects = raises or returns False.')
